@@ -65,6 +65,22 @@ def make_ghost(kind, fams, name, hold_ref=False, reset_pars=False, in_pars=False
             for dis in self.sim.diseases():
                 if hasattr(dis, 'infected'):
                     self.seen += int(np.count_nonzero(dis.infected))   # only reads
+            # a reader that post-processes WHAT IT WAS HANDED, in place (sorting for a median, masking, normalising): the arrays the
+            # read API returns (`Arr.values`, `arr[uids]`) are the reader's own copies; the simulation's state must not move
+            arrs = [ppl.age, ppl.female, ppl.alive] + [st for dis in self.sim.diseases() for st in getattr(dis, 'states', [])][:12]
+            for arr in arrs:
+                try:
+                    v = arr.values
+                    w = arr[au[: max(1, len(au) // 2)]]
+                except Exception:
+                    continue
+                for x in (v, w):
+                    if not isinstance(x, np.ndarray) or not x.flags.writeable or x.size == 0: continue
+                    if x.dtype == bool: x[:] = ~x
+                    else:
+                        x.sort()
+                        np.multiply(x, 0, out=x, casting='unsafe')
+                self.seen += int(v.size)
     kw = dict(name=name)
     if own_dt is not None: kw['dt'] = own_dt
     return Ghost(fams, **kw)
@@ -136,6 +152,9 @@ def build(cfg, pert=None):
         elif k == 'extra_disease':
             d = dict(type=pert['type'], name=pert['name'], beta=pert['beta'], init_prev=0.1)
             if pert['type'] == 'sir': d['p_death'] = 0
+            if pert.get('beta_unit'):      # the same nominal number per another unit of time: another per-step value
+                import starsim as ss
+                d['beta'] = ss.beta(pert['beta'], unit=pert['beta_unit'])
             cfg['diseases'] = ([d] + cfg['diseases']) if pert['first'] else (cfg['diseases'] + [d])
         elif k == 'zero_vx':
             if not any(d['type'] == 'sir' for d in cfg['diseases']):
@@ -486,8 +505,14 @@ def search_zoo(ctx):
         types = tuple(sorted(n['type'] for n in cfg.get('networks', [])))
         if not types or types in seen or 'agepools' in types: continue
         seen.add(types)
-        for beta in (0, 0.45):
+        base_beta = cfg['diseases'][0].get('beta', 0.1)
+        for beta in (0, 0.45, 'same-nominal'):
             pert = dict(kind='extra_disease', type='sis', name='aaa_first', beta=beta, first=True)
+            if beta == 'same-nominal':
+                # the SAME nominal beta as the base's first disease, but per month instead of per year (another per-step value):
+                # anything a route keeps per disease must be keyed by the disease, not by a number that two diseases can share
+                if not isinstance(base_beta, (int, float)) or cfg.get('unit', 'year') != 'year': continue
+                pert.update(beta=base_beta, beta_unit='month')
             try:
                 msg = oracle(cfg, pert)
             except Exception as e:
